@@ -65,6 +65,8 @@ type Annot struct { // things attached to a cut or a loop head
 	Lemmas     []LemmaCall
 	Invariants []EnsuresClause
 	Havoc      []string
+	Derive     []EnsuresClause // proved after havoc from the assumed invariants (small VCs), then assumed
+	GhostPost  []GhostStmt     // ghost updates after havoc/assume
 	Assumes    []*SpecExpr // only allowed with explicit "assumed" justification; listed in evidence
 }
 
@@ -98,7 +100,8 @@ type Contract struct {
 
 var reEns = regexp.MustCompile(`^ensures(?:\[([^\]]+)\])?\s+(.*)$`)
 var reInv = regexp.MustCompile(`^invariant(?:\[([^\]]+)\])?\s+(.*)$`)
-var reCut = regexp.MustCompile(`^after\s+(store|def|call)\s+(\S+)\s+#(\d+)$`)
+var reDer = regexp.MustCompile(`^derive(?:\[([^\]]+)\])?\s+(.*)$`)
+var reCut = regexp.MustCompile(`^after\s+(store|def|call|block)\s*(\S*)\s+#(\d+)$`)
 
 func splitTop(s, sep string) []string {
 	var out []string
@@ -195,7 +198,7 @@ func ParseContracts(file string) ([]*Contract, error) {
 		if i := strings.IndexAny(line, " \t"); i >= 0 {
 			kw, rest = line[:i], strings.TrimSpace(line[i+1:])
 		}
-		if strings.HasPrefix(kw, "ensures[") || strings.HasPrefix(kw, "invariant[") {
+		if strings.HasPrefix(kw, "ensures[") || strings.HasPrefix(kw, "invariant[") || strings.HasPrefix(kw, "derive[") {
 			// keyword with bracket name: re-split using regex below
 			kw = kw[:strings.Index(kw, "[")]
 		}
@@ -243,6 +246,26 @@ func ParseContracts(file string) ([]*Contract, error) {
 				for _, v := range strings.Split(rest, ",") {
 					ann.Havoc = append(ann.Havoc, strings.TrimSpace(v))
 				}
+			case "derive":
+				m := reDer.FindStringSubmatch(line)
+				if m == nil {
+					return nil, fail(fmt.Errorf("bad derive"))
+				}
+				e, err := parseSpec(m[2])
+				if err != nil {
+					return nil, fail(err)
+				}
+				nm := m[1]
+				if nm == "" {
+					nm = fmt.Sprintf("d%d", len(ann.Derive)+1)
+				}
+				ann.Derive = append(ann.Derive, EnsuresClause{nm, e})
+			case "ghost-post":
+				g, err := parseGhost(rest)
+				if err != nil {
+					return nil, fail(err)
+				}
+				ann.GhostPost = append(ann.GhostPost, g)
 			default:
 				return nil, fail(fmt.Errorf("unknown + keyword %q", kw))
 			}
